@@ -55,7 +55,7 @@ func (c *vconn) Read(p []byte) (int, error) {
 		// scheduling point where a new request starts (reads inside one request touch no shared state)
 		vsymYield()
 	}
-	if c.closed {
+	if vsymFlag(&c.closed) {
 		return 0, errVconnClosed
 	}
 	if c.onRead != nil {
@@ -93,7 +93,7 @@ func (c *vconn) Read(p []byte) (int, error) {
 }
 
 func (c *vconn) Write(p []byte) (int, error) {
-	if c.closed {
+	if vsymFlag(&c.closed) {
 		return 0, errVconnClosed
 	}
 	n := c.writes
@@ -110,7 +110,7 @@ func (c *vconn) Write(p []byte) (int, error) {
 
 func (c *vconn) Close() error {
 	c.closes++
-	c.closed = true
+	vsymSignal(&c.closed) // a real net.Conn may be closed from another goroutine
 	if c.blockAtEnd {
 		vsymSignal(&c.closedFlag)
 	}
